@@ -34,7 +34,7 @@ int     g_io_ret;    /* what the I/O layer returned */
 int     g_endaccess; /* Hendaccess calls */
 
 /* defined in error.c, which is not part of the unit */
-const char *cdf_routine_name;
+const char *cdf_routine_name = "ncopen"; /* what SDstart (ncopen) leaves behind; globdef.c starts with "netcdf" */
 
 /* ------------------------------------------------------------------ trusted stubs */
 
@@ -85,6 +85,10 @@ gate_common(NC *handle, int varid, const long *start, const long *edges, void *v
     H4V_CHECK(handle == g_handle && varid == g_varid, "I/O on the variable the id names");
     H4V_CHECK(values == g_data, "I/O on the caller's buffer");
     H4V_CHECK(handle->xdrs->x_op == (g_is_read ? XDR_DECODE : XDR_ENCODE), "transfer direction");
+    /* precondition of the I/O layer on its SD callers: NCcoordck (putget.c) refuses a read beyond the last record of an
+       unlimited dimension only when cdf_routine_name does not start with "nc"; for an nc caller it fills and grows instead */
+    H4V_CHECK(cdf_routine_name != NULL && !(cdf_routine_name[0] == 'n' && cdf_routine_name[1] == 'c'),
+              "the I/O layer is told that an SD call is in progress");
     /* (a loop over constant indices instead of the ghost index: with a symbolic index the
        solver has to prove two 64-bit multipliers equivalent) */
     for (int i = 0; i < (int)g_var->assoc->count; i++) {
